@@ -8,6 +8,8 @@ function of the *contents* of the files it reads (so that a stale or missing inp
   tool.py cat  OUT FILE...               (or `cat - FILE...` to stdout)
   tool.py gen  IN OUT.c [OUT.h] [--from FILE]...     generator form: IN holds one identifier
   tool.py vers OUT.map SYMBOL...         linker version script
+  tool.py multi OUT... [--from FILE]...  any number of outputs in any order: each OUT.h defines the macro <STEM>, each OUT.c
+                                         includes every OUT.h of the same call and defines <stem>() returning their sum
 """
 import os
 import sys
@@ -61,6 +63,10 @@ def src_text(func, o, v, own=None):
     return t
 
 
+def c_ident(stem):
+    return ''.join(c if c.isalnum() else '_' for c in stem)
+
+
 def main():
     cmd, args = sys.argv[1], sys.argv[2:]
     pos, o = opts(args)
@@ -87,6 +93,16 @@ def main():
             write(pos[1], src_text(ident, {'--inc': [], '--use': o['--use']}, v, os.path.basename(pos[2])))
         else:
             write(pos[1], src_text(ident, o, v))
+    elif cmd == 'multi':
+        hs = [p for p in pos if p.endswith('.h')]
+        for k, p in enumerate(pos):
+            stem = os.path.basename(p).rsplit('.', 1)[0]
+            if p.endswith('.h'):
+                write(p, hdr_text(c_ident(stem).upper(), {'--inc': []}, v + k))
+            else:
+                t = ''.join(f'#include "{os.path.basename(h)}"\n' for h in hs)
+                expr = ' + '.join([str(v + k)] + [c_ident(os.path.basename(h)[:-2]).upper() for h in hs])
+                write(p, t + f'int {c_ident(stem)}(void) {{ return {expr}; }}\n')
     elif cmd == 'vers':
         write(pos[0], '{ global: %s local: *; };\n' % ''.join(s + '; ' for s in pos[1:]))
     else:
